@@ -95,6 +95,11 @@ def universe():
             add(M([(S(tg, key), S('int', '1'))]))
             add(M([(S(tg, key), S('int', '1')), (S('str', 'b' if key == 'a' else 'a'), S('str', 'x'))]))
     add(M([(Q([S('str', 'a')]), S('int', '1'))]))
+    # a key of another type with the same text before / after the string key
+    for tg in ('null', 'bool', 'int', 'float', '!A'):
+        for v in (S('int', '1'), S('str', 'x'), Q([S('str', 'p')])):
+            add(M([(S(tg, 'a'), S('float', '1.5')), (S('str', 'a'), v)]))
+            add(M([(S('str', 'a'), v), (S(tg, 'a'), S('float', '1.5'))]))
     add(M([(S('str', 'a'), S('int', '1')), (S('str', 'b'), S('int', '1')), (S('str', 'a'), S('str', 'x'))]))
     add(M([(S('str', 'a'), S('str', 'x')), (S('str', 'a'), S('int', '1'))]))
     return out
@@ -123,7 +128,8 @@ def get_unknown(case):
 
 
 def has_dup(n, name):
-    return n[0] == 'm' and sum(1 for a, b in n[2] if a[2] == name) > 1
+    # only string keys are attribute names: '1: x' next to '"1": y' is one attribute called 1
+    return n[0] == 'm' and sum(1 for a, b in n[2] if a[0] == 's' and a[1] == P + 'str' and a[2] == name) > 1
 
 
 def predicate(case, helper, args, n):
